@@ -16,8 +16,11 @@ class CfdpLv:
         """
         if len(value) > 255:
             raise ValueError("Length too large for LV field")
-        self.value_len = len(value)
         self.value = value
+
+    @property
+    def value_len(self) -> int:
+        return len(self.value)
 
     @classmethod
     def from_str(cls, string: str) -> CfdpLv:
